@@ -33,6 +33,9 @@ pub struct SchemaGenOpts {
     pub defaults: bool,
     /// descriptions / deprecation reasons may contain `*/`
     pub comment_close_in_text: bool,
+    /// one schema in eight gets a hundred extra object types with three hundred distinct names (tables of names
+    /// that are bounded somewhere)
+    pub many_names: bool,
 }
 
 impl Default for SchemaGenOpts {
@@ -49,6 +52,7 @@ impl Default for SchemaGenOpts {
             covariant_fields: false,
             defaults: true,
             comment_close_in_text: true,
+            many_names: false,
         }
     }
 }
@@ -71,7 +75,7 @@ const OBJECT_POOL: &[&str] = &["User", "Post", "Comment", "Tag", "Image", "_Serv
 const UNION_POOL: &[&str] = &["SearchResult", "Media", "_Entity"];
 const FIELD_POOL: &[&str] = &[
     "id", "name", "title", "body", "author", "posts", "comments", "tags", "node", "search", "friends",
-    "count", "role", "createdAt", "meta", "media", "score", "flags", "matrix", "owner",
+    "count", "role", "createdAt", "meta", "media", "score", "flags", "matrix", "owner", "_id", "_service",
 ];
 const FIELD_POOL_KW: &[&str] = &["type", "on", "query", "fragment", "input"];
 const ARG_POOL: &[&str] = &["first", "after", "filter", "ids", "role", "at", "input", "q", "deep", "flag"];
@@ -528,6 +532,7 @@ pub fn gen_schema(ch: &mut Choices, o: &SchemaGenOpts) -> GenSchema {
 
     // custom directives
     let mut directive_defs: Vec<MDirectiveDef> = vec![];
+    let mut auth_name = "auth".to_string();
     if o.custom_directives {
         if ch.chance(1, 2) {
             // @tag(name: String!, weight: Int = 1) repeatable on many locations
@@ -537,6 +542,8 @@ pub fn gen_schema(ch: &mut Choices, o: &SchemaGenOpts) -> GenSchema {
                 args: vec![
                     MInputValue { desc: None, name: "name".into(), ty: MType::non_null(MType::named("String")), default: None, directives: vec![] },
                     MInputValue { desc: None, name: "weight".into(), ty: MType::named("Int"), default: Some(MValue::Int("1".into())), directives: vec![] },
+                    // a nullable list of non-null items: `null`, a list, and a single item (coerced) are all legal
+                    MInputValue { desc: None, name: "labels".into(), ty: MType::list(MType::non_null(MType::named("String"))), default: None, directives: vec![] },
                 ],
                 repeatable: true,
                 locations: [
@@ -559,9 +566,16 @@ pub fn gen_schema(ch: &mut Choices, o: &SchemaGenOpts) -> GenSchema {
             ];
             let n = ch.range(1, all.len());
             let locs = pick_distinct(ch, &all, n);
+            // directives and types live in different name spaces: one time in four the directive is spelled like a type
+            if ch.chance(1, 4) {
+                if let Some(t) = enums.first().or(objects.first()) {
+                    auth_name = t.clone();
+                    labels.push("directive-named-like-a-type");
+                }
+            }
             directive_defs.push(MDirectiveDef {
                 desc: None,
-                name: "auth".into(),
+                name: auth_name.clone(),
                 args: vec![MInputValue { desc: None, name: "role".into(), ty: role_ty, default: None, directives: vec![] }],
                 repeatable: false,
                 locations: locs,
@@ -576,7 +590,7 @@ pub fn gen_schema(ch: &mut Choices, o: &SchemaGenOpts) -> GenSchema {
         let mut apply = |ch: &mut Choices, loc: &str, target: &mut Vec<MDirective>, types_ro: &BTreeMap<String, MTypeDef>, owner: &str| {
             for d in &defs {
                 // a directive must not be applied (transitively) inside its own argument types
-                if d.name == "auth" && Some(owner.to_string()) == enum_first {
+                if d.name == auth_name && Some(owner.to_string()) == enum_first {
                     continue;
                 }
                 if d.locations.iter().any(|l| l == loc) && ch.chance(1, 6) {
@@ -593,6 +607,13 @@ pub fn gen_schema(ch: &mut Choices, o: &SchemaGenOpts) -> GenSchema {
                                     }
                                 } else if a.name == "name" {
                                     MValue::Str(ch.pick(&["a", "b c", "caf\u{e9}"]).to_string())
+                                } else if a.name == "labels" {
+                                    match ch.below(4) {
+                                        0 => MValue::Null,
+                                        1 => MValue::List(vec![]),
+                                        2 => MValue::Str("single".into()),
+                                        _ => MValue::List(vec![MValue::Str("a".into()), MValue::Str("b".into())]),
+                                    }
                                 } else {
                                     MValue::Int("2".into())
                                 };
@@ -671,6 +692,15 @@ pub fn gen_schema(ch: &mut Choices, o: &SchemaGenOpts) -> GenSchema {
         let k = ch.below(doc.len());
         let d = doc.remove(0);
         doc.insert(k, d);
+    }
+    if o.many_names && ch.chance(1, 8) {
+        labels.push("many-names");
+        for i in 0..100 {
+            let mut t = MTypeDef::new(Kind::Object, &format!("Filler{i}"));
+            t.fields.push(MField { desc: None, name: format!("f{i}a"), args: vec![], ty: MType::named("Int"), directives: vec![] });
+            t.fields.push(MField { desc: None, name: format!("f{i}b"), args: vec![], ty: MType::named(if i > 0 { "Filler0" } else { "String" }), directives: vec![] });
+            doc.push(MTsDef::Type(t));
+        }
     }
     let schema = Schema::from_doc(&doc);
     if !unions.is_empty() {
